@@ -23,7 +23,7 @@ namespace SoyVerif.Model
 
 /-- the `switch str[i]` of htmlEscapeString: the replacement, or `none` for `default: continue` -/
 def htmlRepl (b : UInt8) : Option Bytes :=
-  if b == 34 then some [38, 35, 51, 52, 59]          -- "  ->  &#34;
+  if b == 34 then some [38, 113, 117, 111, 116, 59]  -- "  ->  &quot;
   else if b == 39 then some [38, 35, 51, 57, 59]     -- '  ->  &#39;
   else if b == 38 then some [38, 97, 109, 112, 59]   -- &  ->  &amp;
   else if b == 60 then some [38, 108, 116, 59]       -- <  ->  &lt;
@@ -40,29 +40,6 @@ def htmlPiece (b : UInt8) : Bytes :=
 def htmlEscape : Bytes → Bytes
   | [] => []
   | b :: r => htmlPiece b ++ htmlEscape r
-
-/-! ## text/template.HTMLEscapeString -/
-
-/-- the `switch c` of text/template.HTMLEscape (NUL becomes U+FFFD, bytes EF BF BD) -/
-def goHtmlRepl (b : UInt8) : Option Bytes :=
-  if b == 0 then some [239, 191, 189]
-  else if b == 34 then some [38, 35, 51, 52, 59]
-  else if b == 39 then some [38, 35, 51, 57, 59]
-  else if b == 38 then some [38, 97, 109, 112, 59]
-  else if b == 60 then some [38, 108, 116, 59]
-  else if b == 62 then some [38, 103, 116, 59]
-  else none
-
-def goHtmlPiece (b : UInt8) : Bytes :=
-  match goHtmlRepl b with
-  | some h => h
-  | none => [b]
-
-/-- text/template.HTMLEscapeString (the `ContainsAny` fast path returns `s`, which is what
-    the loop produces as well when no byte is special) -/
-def goHtmlEscape : Bytes → Bytes
-  | [] => []
-  | b :: r => goHtmlPiece b ++ goHtmlEscape r
 
 /-! ## utf8.DecodeRune -/
 
